@@ -19,8 +19,9 @@ func init() {
 			"(R3) the mime type announced follows the format used: MimeDump returns FormatToMimeType[format], DumpToHTTPResponse sets Content-Type unconditionally before writing, DumpToHTTPRequest announces the format it serializes with; " +
 			"(R4) loaders slice their input only at the decoder's count on its success edge and reject an empty payload; (R5) dump functions do not return bytes that alias recycled (pooled) storage; (R6) every constant-bound index/slice of a byte slice or string in the repo functions statically reachable from the loaders (incl. the error-message helpers) is dominated by a length test implying the bound. " +
 			"(R7) error discipline over package formats/dsd: " + repoErrText + ". " +
+			"(R8) the dump functions never write into memory that may belong to the caller: no append to, copy into or element store through a slice that is (a re-slice of) the serializer's result or the caller's own []byte (RAW hands the caller's slice through); (R9) FormatFromAccept strips media-type parameters (;q=...) from an element before it compares it with anything, wildcards included. " +
 			"NOT decided: value equality through the third-party codecs (JSON/CBOR/MsgPack/YAML), compression correctness.",
-		Rules: []ruleFn{c09R1, c09R2, c09R3, c09R4, c09R5, c09R6,
+		Rules: []ruleFn{c09R1, c09R2, c09R3, c09R4, c09R5, c09R6, c09R8, c09R9,
 			repoErrRuleFor("C09-R7", 12, func(c *Ctx, fn *ssa.Function) bool { return short(fn.Pkg.Pkg.Path()) == "formats/dsd" }, map[string]string{})},
 	})
 }
@@ -464,4 +465,193 @@ func c09R6(c *Ctx, r *Report) {
 	boundsRule(c, r, rule, "load of an arbitrary byte string",
 		"formats/dsd.Load", "formats/dsd.LoadAsFormat", "formats/dsd.DecompressAndLoad", "formats/dsd.loadFormat",
 		"formats/dsd.LoadFromHTTPRequest", "formats/dsd.LoadFromHTTPResponse", "formats/dsd.MimeLoad")
+}
+
+// c09R8: no in-place writes into possibly caller-owned bytes.
+func c09R8(c *Ctx, r *Report) {
+	const rule = "C09-R8"
+	r.SetFloor(rule, 2)
+	n := 0
+	for _, fn := range c.FuncsIn("formats/dsd") {
+		if fn.Blocks == nil || !strings.HasPrefix(fn.Name(), "Dump") && !strings.HasPrefix(fn.Name(), "dump") {
+			continue
+		}
+		tainted := map[ssa.Value]bool{}
+		for changed := true; changed; {
+			changed = false
+			eachInstr(fn, func(in ssa.Instruction) {
+				v, ok := in.(ssa.Value)
+				if !ok || tainted[v] {
+					return
+				}
+				hit := false
+				switch x := in.(type) {
+				case *ssa.Extract:
+					if call, ok := x.Tuple.(*ssa.Call); ok && x.Index == 0 {
+						cn := calleeName(&call.Call)
+						hit = cn == "formats/dsd.dumpWithoutIdentifier" || cn == "formats/dsd.DumpIndent" || cn == "formats/dsd.Dump"
+					}
+					if ta, ok := x.Tuple.(*ssa.TypeAssert); ok && x.Index == 0 {
+						_, isParam := ta.X.(*ssa.Parameter)
+						hit = isParam && isSliceOrString(ta.AssertedType)
+					}
+				case *ssa.TypeAssert:
+					_, isParam := x.X.(*ssa.Parameter)
+					hit = isParam && !x.CommaOk && isSliceOrString(x.AssertedType)
+				case *ssa.Slice:
+					hit = tainted[x.X]
+				case *ssa.Phi:
+					for _, e := range x.Edges {
+						hit = hit || tainted[e]
+					}
+				case *ssa.Call:
+					if calleeName(&x.Call) == "builtin.append" {
+						hit = tainted[x.Call.Args[0]]
+					}
+				}
+				if hit {
+					tainted[v] = true
+					changed = true
+				}
+			})
+		}
+		if len(tainted) == 0 {
+			continue
+		}
+		n++
+		var bad []string
+		eachInstr(fn, func(in ssa.Instruction) {
+			switch x := in.(type) {
+			case *ssa.Call:
+				cn := calleeName(&x.Call)
+				if (cn == "builtin.append" || cn == "builtin.copy") && tainted[x.Call.Args[0]] {
+					bad = append(bad, fmt.Sprintf("%s into a slice that may be the caller's at %s", cn, c.Pos(x.Pos())))
+				}
+			case *ssa.Store:
+				if ia, ok := x.Addr.(*ssa.IndexAddr); ok && tainted[ia.X] {
+					bad = append(bad, "element store through a slice that may be the caller's at "+c.Pos(x.Pos()))
+				}
+			}
+		})
+		r.Check(len(bad) == 0, rule, fnKey(fn)+" / serialized or caller-owned bytes are only read",
+			"no append to / copy into / store through such a slice", "dump writes in place into bytes it does not own ("+strings.Join(firstN(bad, 2), "; ")+"): with RAW the caller's own slice is modified and the returned blob aliases it")
+	}
+	if n == 0 {
+		r.Undecided(rule, "formats/dsd dump functions", "no dump function handles serializer results")
+	}
+}
+
+// c09R9: parameters are stripped before any comparison of an Accept element.
+func c09R9(c *Ctx, r *Report) {
+	const rule = "C09-R9"
+	r.SetFloor(rule, 2)
+	fn := c.Func("formats/dsd.FormatFromAccept")
+	if fn == nil {
+		r.Undecided(rule, "formats/dsd.FormatFromAccept", "anchor function missing")
+		return
+	}
+	isStr := func(v ssa.Value, want string) bool {
+		cst, ok := v.(*ssa.Const)
+		return ok && cst.Value != nil && cst.Value.Kind() == constant.String && constant.StringVal(cst.Value) == want
+	}
+	// 1 = went through the ';' strip, 0 = reaches the raw list element without a strip, -1 = shape not understood
+	var stripped func(v ssa.Value, depth int) int
+	stripped = func(v ssa.Value, depth int) int {
+		if depth > 8 {
+			return -1
+		}
+		switch x := v.(type) {
+		case *ssa.Extract:
+			if call, ok := x.Tuple.(*ssa.Call); ok {
+				if calleeName(&call.Call) == "strings.Cut" {
+					if isStr(call.Call.Args[1], ";") {
+						if x.Index == 0 {
+							return 1
+						}
+						return -1
+					}
+					return stripped(call.Call.Args[0], depth+1)
+				}
+			}
+		case *ssa.Call:
+			switch calleeName(&x.Call) {
+			case "strings.TrimSpace", "strings.ToLower", "strings.Trim", "strings.TrimPrefix", "strings.TrimSuffix":
+				return stripped(x.Call.Args[0], depth+1)
+			}
+		case *ssa.Phi:
+			res := 1
+			for _, e := range x.Edges {
+				if k := stripped(e, depth+1); k < res {
+					res = k
+				}
+			}
+			return res
+		case *ssa.Slice:
+			if x.High != nil {
+				if call, ok := x.High.(*ssa.Call); ok && (calleeName(&call.Call) == "strings.Index" || calleeName(&call.Call) == "strings.IndexByte") && isStr(call.Call.Args[1], ";") {
+					return 1
+				}
+			}
+			return stripped(x.X, depth+1)
+		case *ssa.UnOp:
+			if ia, ok := x.X.(*ssa.IndexAddr); ok {
+				if call, ok := ia.X.(*ssa.Call); ok {
+					cn := calleeName(&call.Call)
+					if cn == "strings.Split" || cn == "strings.SplitN" {
+						if isStr(call.Call.Args[1], ";") {
+							if k, isC := constInt(ia.Index); isC && k == 0 {
+								return 1
+							}
+							return -1
+						}
+						if isStr(call.Call.Args[1], ",") {
+							return 0 // the raw Accept element
+						}
+					}
+				}
+			}
+		}
+		return -1
+	}
+	n := 0
+	check := func(subject ssa.Value, what string, pos ssa.Instruction) {
+		n++
+		cons := fmt.Sprintf("formats/dsd.FormatFromAccept / %s uses the element without parameters", what)
+		switch stripped(subject, 0) {
+		case 1:
+			r.OK(rule, cons, "the compared value went through the ';' strip")
+		case 0:
+			r.Bad(rule, cons, "an Accept element is compared before its parameters (;q=...) were stripped: '*/*;q=0.8' is not recognised as a wildcard / format", c.Pos(pos.Pos()))
+		default:
+			r.Undecided(rule, cons, "the derivation of the compared value is not understood: "+vpath(subject))
+		}
+	}
+	ord := map[string]int{}
+	eachInstr(fn, func(in ssa.Instruction) {
+		switch x := in.(type) {
+		case *ssa.BinOp:
+			if x.Op != token.EQL && x.Op != token.NEQ {
+				return
+			}
+			for _, pair := range [][2]ssa.Value{{x.X, x.Y}, {x.Y, x.X}} {
+				if cst, ok := pair[1].(*ssa.Const); ok && cst.Value != nil && cst.Value.Kind() == constant.String && strings.Contains(constant.StringVal(cst.Value), "*") {
+					check(pair[0], ordinal(ord, "wildcard comparison"), x)
+				}
+			}
+		case *ssa.Call:
+			cn := calleeName(&x.Call)
+			if (cn == "strings.HasSuffix" || cn == "strings.HasPrefix") && len(x.Call.Args) == 2 {
+				if cst, ok := x.Call.Args[1].(*ssa.Const); ok && cst.Value != nil && cst.Value.Kind() == constant.String && strings.Contains(constant.StringVal(cst.Value), "*") {
+					check(x.Call.Args[0], ordinal(ord, "wildcard comparison"), x)
+				}
+			}
+		case *ssa.Lookup:
+			if strings.HasSuffix(vpath(x.X), "MimeTypeToFormat") {
+				check(x.Index, ordinal(ord, "format table lookup"), x)
+			}
+		}
+	})
+	if n == 0 {
+		r.Undecided(rule, fnKey(fn), "no comparison of an Accept element found")
+	}
 }
